@@ -1090,3 +1090,164 @@ def build_T8s(tree):
 
 
 TARGETS['T8s'] = {'file': 'seg/sop.py', 'build': build_T8s}
+
+
+# ---------------------------------------------------------------- state kept between reads
+def _sql_kind(node, env):
+    """Classify the SQL text an execute/executemany call is given: literal / f-string, or a name bound to one in `env`."""
+    if isinstance(node, ast.Name) and node.id in env:
+        node = env[node.id]
+    if isinstance(node, ast.JoinedStr):
+        txt = ''.join(v.value if isinstance(v, ast.Constant) else '{}' for v in node.values)
+    elif isinstance(node, ast.Constant) and isinstance(node.value, str):
+        txt = node.value
+    else:
+        raise Unsupported('SQL text of an execute call is not a (formatted) string literal: ' + ast.unparse(node))
+    t = ' '.join(txt.split()).upper()
+    for prefix, kind in (('DROP TABLE', 'drop'), ('CREATE TABLE', 'create'), ('INSERT INTO', 'insert'),
+                         ('SELECT COUNT(*) FROM SQLITE_MASTER', 'exists?')):
+        if t.startswith(prefix):
+            return kind
+    raise Unsupported('unknown SQL statement in _generate_temp_tables: ' + txt[:60])
+
+
+def _temp_ops(stmts, env=None, state=None):
+    """The database operations of a statement list, in order; `if <count of sqlite_master> > 0: DROP` is one guarded drop."""
+    env = {} if env is None else env
+    state = {'exists': None} if state is None else state
+    ops = []
+    exists_var = state['exists']
+    for st in stmts:
+        if isinstance(st, ast.Assign) and len(st.targets) == 1 and isinstance(st.targets[0], ast.Name):
+            env[st.targets[0].id] = st.value
+            calls = [n for n in ast.walk(st.value) if isinstance(n, ast.Call) and isinstance(n.func, ast.Attribute)
+                     and n.func.attr in ('execute', 'executemany', 'executescript')]
+            for c in calls:
+                if _sql_kind(c.args[0], env) != 'exists?':
+                    raise Unsupported('a statement other than the existence query is executed in an assignment')
+                exists_var = st.targets[0].id
+                state['exists'] = exists_var
+            continue
+        if isinstance(st, ast.If):
+            if exists_var is None or _norm(st.test) != exists_var + '>0' or st.orelse:
+                raise Unsupported('conditional database operation that is not `if <table exists>:`: ' + _norm(st.test))
+            inner = _temp_ops(st.body, env, state)
+            if inner != ['drop']:
+                raise Unsupported('`if <table exists>:` does something else than dropping the table')
+            ops.append('dropIfExists')
+            continue
+        if isinstance(st, ast.With):
+            if [_norm(i.context_expr) for i in st.items] != ['self._db_con']:
+                raise Unsupported('with-block other than `with self._db_con:`')
+            ops += _temp_ops(st.body, env, state)
+            continue
+        if isinstance(st, ast.Expr) and isinstance(st.value, ast.Call) and isinstance(st.value.func, ast.Attribute) \
+                and st.value.func.attr in ('execute', 'executemany'):
+            ops.append(_sql_kind(st.value.args[0], env))
+            continue
+        raise Unsupported('statement not understood in _generate_temp_tables: ' + ast.unparse(st)[:80])
+    return ops
+
+
+def _self_writes(fn):
+    out = []
+    for n in ast.walk(fn):
+        tgts = []
+        if isinstance(n, ast.Assign):
+            tgts = n.targets
+        elif isinstance(n, (ast.AugAssign, ast.AnnAssign)):
+            tgts = [n.target]
+        elif isinstance(n, ast.Delete):
+            tgts = n.targets
+        elif isinstance(n, ast.Call) and ast.unparse(n.func) in ('setattr', 'delattr') and n.args and _norm(n.args[0]) == 'self':
+            out.append(ast.unparse(n.args[1]) if len(n.args) > 1 else '?')
+        for t in tgts:
+            for x in (t.elts if isinstance(t, (ast.Tuple, ast.List)) else [t]):
+                while isinstance(x, ast.Subscript):
+                    x = x.value
+                if isinstance(x, ast.Attribute) and isinstance(x.value, ast.Name) and x.value.id == 'self':
+                    out.append(x.attr)
+                if isinstance(x, ast.Attribute) and _norm(x.value) == 'self.__dict__':
+                    out.append('__dict__')
+    return out
+
+
+def build_T8r(tree):
+    """What a read leaves behind on the object.  (1) `_Image._generate_temp_tables` (image.py): the database operations applied to
+    every temporary table before the `yield` and after it, and whether the `yield` sits in a `try … finally` (so that the
+    clean-up also runs when the body raises).  (2) every attribute of `self` that any function reachable from the five read
+    entry points through `self.<method>(…)` calls or `self.<property>` reads (methods of Segmentation / _Image) assigns or deletes."""
+    import os
+    repo = os.environ.get('HD_REPO', '/repo')
+    itree = ast.parse(open(os.path.join(repo, 'src', 'highdicom', 'image.py')).read())
+    fn = find_func(itree, '_Image._generate_temp_tables')
+    body = strip_doc(fn.body)
+    guarded = False
+    if len(body) == 2 and isinstance(body[1], ast.Try) is False and isinstance(body[0], ast.For) and False:
+        pass
+    # shapes accepted:  for … ; yield ; for …      or      for … ; try: yield  finally: for …
+    if len(body) == 3 and isinstance(body[0], ast.For) and isinstance(body[1], ast.Expr) and isinstance(body[1].value, ast.Yield) \
+            and isinstance(body[2], ast.For):
+        pre_loop, post_loop = body[0], body[2]
+    elif len(body) == 2 and isinstance(body[0], ast.For) and isinstance(body[1], ast.Try) and not body[1].handlers \
+            and len(body[1].body) == 1 and isinstance(body[1].body[0], ast.Expr) and isinstance(body[1].body[0].value, ast.Yield) \
+            and len(body[1].finalbody) == 1 and isinstance(body[1].finalbody[0], ast.For):
+        pre_loop, post_loop, guarded = body[0], body[1].finalbody[0], True
+    else:
+        raise Unsupported('_generate_temp_tables is no longer  for-loop / yield / for-loop')
+    for lp in (pre_loop, post_loop):
+        if _norm(lp.iter) != 'table_defs' or lp.orelse:
+            raise Unsupported('_generate_temp_tables: a loop is not over table_defs')
+    pre = [o for o in _temp_ops(pre_loop.body)]
+    post = [o for o in _temp_ops(post_loop.body)]
+    names = {'dropIfExists': '.dropIfExists', 'drop': '.drop', 'create': '.create', 'insert': '.insert'}
+    for o in pre + post:
+        if o not in names:
+            raise Unsupported('unexpected database operation ' + o)
+    if not any(isinstance(d, ast.Attribute) and d.attr == 'contextmanager' or isinstance(d, ast.Name) and d.id == 'contextmanager'
+               for d in fn.decorator_list):
+        raise Unsupported('_generate_temp_tables is no longer a @contextmanager')
+    # ---- (2) attribute writes along the read paths
+    classes = {}
+    for t in (tree, itree):
+        for c in t.body:
+            if isinstance(c, ast.ClassDef) and c.name in ('Segmentation', '_Image'):
+                classes[c.name] = {n.name: n for n in c.body if isinstance(n, ast.FunctionDef)}
+    def lookup(name):
+        for cn in ('Segmentation', '_Image'):
+            if name in classes.get(cn, {}):
+                return cn, classes[cn][name]
+        return None
+    todo = [('Segmentation', classes['Segmentation'][n]) for n in _READ_ENTRIES]
+    seen, writes = set(), []
+    while todo:
+        cn, f = todo.pop()
+        if (cn, f.name) in seen:
+            continue
+        seen.add((cn, f.name))
+        for a in _self_writes(f):
+            writes.append((f'{cn}.{f.name}', a))
+        for n in ast.walk(f):
+            if isinstance(n, ast.Attribute) and isinstance(n.value, ast.Name) and n.value.id == 'self':
+                hit = lookup(n.attr)
+                if hit is not None:
+                    todo.append(hit)
+            if isinstance(n, ast.Attribute) and isinstance(n.value, ast.Call) and _norm(n.value) == 'super()':
+                hit = classes.get('_Image', {}).get(n.attr)
+                if hit is not None:
+                    todo.append(('_Image', hit))
+    writes = sorted(set(writes))
+    reach = sorted(f'{a}.{b}' for a, b in seen)
+    t1 = ('/-- `_generate_temp_tables`: operations on every table before the `yield` -/\n'
+          'def tempTablesPre : List HdVerif.SegState.TempOp := [' + ', '.join(names[o] for o in pre) + ']\n\n'
+          '/-- … and after it -/\n'
+          'def tempTablesPost : List HdVerif.SegState.TempOp := [' + ', '.join(names[o] for o in post) + ']\n\n'
+          '/-- the `yield` is inside `try … finally` -/\n'
+          f'def tempTablesGuarded : Bool := {"true" if guarded else "false"}')
+    t2 = ('/-- (function, attribute of `self` it assigns or deletes) over everything reachable from the read entry points -/\n'
+          'def readPathSelfWrites : List (String × String) :=\n  [' + ',\n   '.join('("%s", "%s")' % w for w in writes) + ']')
+    t3 = ('/-- the functions reached -/\ndef readPathFunctions : List String :=\n  [' + ', '.join('"' + x + '"' for x in reach) + ']')
+    return '\n\n'.join([t1, t2, t3]), span_sha(body) + hashlib.sha256(repr(writes + reach).encode()).hexdigest()[:12]
+
+
+TARGETS['T8r'] = {'file': 'seg/sop.py', 'build': build_T8r, 'imports': ['HdVerif.Model.SegReadState']}
